@@ -36,6 +36,45 @@ def lex_case(arg) -> dict:
     return rec
 
 
+SQ, DQ, BS, NL = "'", '"', "\\", "\n"
+
+
+def literal_programs(maxlen: int) -> list[str]:
+    """one-statement programs around every spelling of a string literal: each quote style x every body of length <= maxlen over
+    pieces that interact with the string states of the lexer (own / other quote, runs of quotes, escapes, newline); plus number,
+    constant, position-mark and language-string spellings.  Whether the compiler accepts each one is established by compiling it."""
+    pieces = ["a", SQ, DQ, BS + SQ, BS + DQ, BS + "n", NL, " "]
+    out = []
+    for q in (SQ, DQ, SQ * 3, DQ * 3):
+        for n in range(0, maxlen + 1):
+            for body in itertools.product(pieces, repeat=n):
+                out.append("def 0 {\n    msg(" + q + "".join(body) + q + ");\n}\n")
+    lits = ["-01.5", "007.250", "-.5", ".5", "0x1F", "0XaB", "0b101", "0o17", "-0x10", "$V", "CONST_X", "Position<'m', 1, 2>",
+            'Position<"m m", 1.5, 0>', "Position<\n 'm' , /* c */ 2.5 ,\n 3 >", "{english='a', german=\"b\"}", "{english='''x\n  y''',}",
+            "$V[3]", "scn[1, 2]"]
+    for lit in lits:
+        out.append("def 0 {\n    op(" + lit + ");\n}\n")
+        out.append("def 0 { op(1," + lit + ",/*c*/" + lit + "); } // tail")
+    return out
+
+
+def respelled_programs(rng: random.Random, n: int) -> list[str]:
+    """accepted programs in unusual layouts: the re-spellings of C16 (comments at token boundaries, CRLF, line joining, bases, quote styles)"""
+    from vf import c16
+    out = []
+    for _ in range(n):
+        src = gen_exps.random_program(rng, 2)
+        toks = c16.tokenize(src)
+        seps, alts = ["space"] * (len(toks) - 1), {}
+        for s in c16.plan(rng, src, 12):
+            if s["a"] == "SetSeparator":
+                seps[s["i"] - 1] = s["w"]
+            else:
+                alts[s["i"] - 1] = (s["a"], s.get("w", ""))
+        out.append(c16.render(toks, seps, alts))
+    return out
+
+
 def validate(rep, recs, tag):
     out, drift = [], []
     B = 4000
@@ -69,7 +108,11 @@ def main() -> int:
             args.append(("".join(t), False, True))
     n_exh = len(args)
     progs = enum_exps.c01_family(False)[:: (40 if not thorough else 6)] + [gen_exps.random_program(rng, 3) for _ in range(200 if not thorough else 2000)]
+    n_lit = len(progs)
+    progs += literal_programs(maxlen)
+    progs += respelled_programs(rng, 60 if not thorough else 600)
     comp = pmap(drive.compile_text, progs)
+    rep.extra["literal_and_respelled_programs"] = {"count": len(progs) - n_lit, "accepted": sum(1 for c in comp[n_lit:] if c.get("status") == "ok")}
     for p, c in zip(progs, comp):
         acc = c.get("status") == "ok"
         args.append((p, acc, True))
